@@ -68,11 +68,6 @@ macro "loc_case" hl:ident : tactic =>
      · intro e; simp_all
      · constructor <;> simp [waitLive, waitPrep, inWaitN, Loc.wakePhase, Loc.holds, Thr.fresh] <;> simp_all))
 
-/-- Atomic operations (as opposed to API boundaries, marks, semaphore operations). -/
-def Event.isAtomic : Event → Bool
-  | .wordLd .. | .wordCas .. | .wordSt .. | .recLd .. | .recSt .. | .recCas .. | .muLd .. | .muCas .. => true
-  | _ => false
-
 set_option maxHeartbeats 1000000 in
 theorem invA_loc_api {s : State} {t : Tid} {e : Event} {x' : Thr} (hi : InvA s) (h : LTr s t e x')
     (he : e.isAtomic = false) : InvA (s.setThr t x') := by
@@ -100,6 +95,8 @@ theorem invA_loc_api {s : State} {t : Tid} {e : Event} {x' : Thr} (hi : InvA s) 
   | semPdRetTimedC k d hl hd hn => loc_case hl
   | noteSeen hl => rcases hl with hl | hl | hl <;> loc_case hl
   | noteNotify hl ht => loc_case hl
+  | callDebug k hl => loc_case hl
+  | retDebug k hl hk => loc_case hl
   | _ => simp [Event.isAtomic] at he
 
 end NsyncVerif.CvFix
